@@ -179,7 +179,8 @@ class Family:
                 src += f"class {n}_Strategy({n}_Base):\n    pass\n"
             src += f"{n}_S = {n}_Strategy()\n"
         # a stand-alone parser for one-way ({'deserialize': ...}) registrations on a field
-        src += f"def {n}_DE(value):\n    return {plain_de}\n"
+        src += (f"def {n}_DE(value):\n    return {n}([x if isinstance(x, datetime.date) else datetime.date.fromisoformat(x) for x in value])"
+                "        # (a format with native dates hands them over as they are)\n")
         return src
 
     def boxed_in(self, t):
